@@ -122,7 +122,17 @@ plan_read (FILE *in, plan &out, std::string &err)
       else if (k == "knob" && t.size () >= 3)
 	out.knobs[t[1]] = atol (t[2].c_str ());
       else if (k == "file" && t.size () >= 4)
-	out.files.push_back ({hexdec (t[1]), hexdec (t[2]), atoi (t[3].c_str ())});
+	{
+	  plan_file pf {hexdec (t[1]), hexdec (t[2]), atoi (t[3].c_str ()), {}};
+	  for (size_t i = 4; i < t.size (); ++i)
+	    {
+	      long off = 0;
+	      int byte = 0;
+	      if (sscanf (t[i].c_str (), "patch:%ld:%d", &off, &byte) == 2)
+		pf.patches.push_back ({off, byte});
+	    }
+	  out.files.push_back (pf);
+	}
       else if (k == "prog" && t.size () >= 4)
 	{
 	  size_t idx = atol (t[1].c_str ());
